@@ -536,3 +536,67 @@ Lemma tsx_init_detectors period zone offset src (k : C) s0 : tsx_init period zon
   tz_zone s0 = zone /\ tz_cu s0 = cross_new (f0, zone) /\ tz_ca s0 = cross_new (f0, fneg zone).
 Proof. init_fields tsx_init. Qed.
 End Instances.
+
+(** ---- CommodityChannelIndex: the latch [last_signal] never suppresses anything - the signal is exactly the zone-entry rule on
+    the current and the previous returned value: +1 when the value falls below -zone from at or above it, -1 when it rises above
+    +zone from at or below it.  (A signal can only repeat if the value were on both sides of a threshold at once.) *)
+Section CCI.
+Context {pw : PW}.
+Local Notation R := (@F NumR).
+Local Notation C := (candle (N := NumR)).
+Definition cci_rule (z cci last : R) : Z :=
+  b2z (flt cci (fneg z) && fge last (fneg z)) - b2z (fgt cci z && fle last z).
+Definition cci_latch_inv (s : ccii_st (N := NumR)) : Prop :=
+  (0 <= ci_zone s)%R /\
+  (ci_last_signal s = 1 -> (ci_last s < - ci_zone s)%R) /\ (ci_last_signal s = -1 -> (ci_last s > ci_zone s)%R) /\
+  (ci_last_signal s = 0 \/ ci_last_signal s = 1 \/ ci_last_signal s = -1).
+Lemma cci_step_rule (s : ccii_st (N := NumR)) (k : C) : cci_latch_inv s ->
+  let r := snd (ccii_next s k) in
+  cci_latch_inv (fst (ccii_next s k)) /\ ci_last (fst (ccii_next s k)) = vals r 0 /\ ci_zone (fst (ccii_next s k)) = ci_zone s /\
+  sigs r = [a_from_i8 (cci_rule (ci_zone s) (vals r 0) (ci_last s))].
+Proof.
+  intros (Hz & H1 & H2 & H3). cbv zeta. unfold ccii_next. destruct (cci_next (ci_cci s) _) as (c', raw).
+  cbn [fst snd vals sigs nth ci_last ci_zone ci_last_signal]. set (cci := fmul raw cci_scale). set (z := ci_zone s) in *. set (last := ci_last s) in *.
+  unfold cci_latch_inv, cci_rule. cbn [ci_zone ci_last ci_last_signal]. fold z.
+  set (lo := flt cci (fneg z) && fge last (fneg z)). set (hi := fgt cci z && fle last z).
+  assert (Hlo : lo = true -> (cci < - z /\ - z <= last)%R).
+  { unfold lo, fge, flt. rsimp. intros E. apply andb_prop in E. destruct E as (E1 & E2).
+    destruct (Rltb_spec cci (- z)); [|discriminate]. destruct (Rleb_spec (- z) last); [|discriminate]. split; assumption. }
+  assert (Hhi : hi = true -> (z < cci /\ last <= z)%R).
+  { unfold hi, fgt, fle, flt. rsimp. intros E. apply andb_prop in E. destruct E as (E1 & E2).
+    destruct (Rltb_spec z cci); [|discriminate]. destruct (Rleb_spec last z); [|discriminate]. split; assumption. }
+  assert (Hex : lo = true -> hi = true -> False) by (intros A B; destruct (Hlo A), (Hhi B); lra).
+  destruct lo eqn:El, hi eqn:Eh; cbn [b2z]; try (exfalso; apply Hex; reflexivity).
+  - (* enters the lower zone: t = 1 *) destruct (Hlo eq_refl) as (A1 & A2).
+    assert (Hn : ci_last_signal s <> 1) by (intros E; specialize (H1 E); fold last z in H1; lra).
+    replace (1 - 0)%Z with 1%Z by lia. destruct (Z.eqb_spec 1 0); [lia|]. destruct (Z.eqb_spec (ci_last_signal s) 1); [contradiction|].
+    cbn [negb andb b2z]. replace (1 * 1)%Z with 1%Z by lia. repeat split; try assumption; try (intros; lra); try (intros; lia); auto.
+  - (* enters the upper zone: t = -1 *) destruct (Hhi eq_refl) as (A1 & A2).
+    assert (Hn : ci_last_signal s <> -1) by (intros E; specialize (H2 E); fold last z in H2; lra).
+    replace (0 - 1)%Z with (-1)%Z by lia. destruct (Z.eqb_spec (-1) 0); [lia|]. destruct (Z.eqb_spec (ci_last_signal s) (-1)); [contradiction|].
+    cbn [negb andb b2z]. replace (1 * -1)%Z with (-1)%Z by lia. repeat split; try assumption; try (intros; lra); try (intros; lia); auto.
+  - replace (0 - 0)%Z with 0%Z by lia. cbn [Z.eqb negb andb b2z]. replace (0 * 0)%Z with 0%Z by lia.
+    repeat split; try assumption; try (intros; lia); auto.
+Qed.
+Theorem cci_signal_correct period (zone : R) src (c0 : C) cs c s0 : ccii_init period zone src c0 = Ok s0 ->
+  let st := steps ccii_next s0 cs in let r := snd (ccii_next st c) in
+  let last := match rev (run ccii_next s0 cs) with [] => f0 | q :: _ => vals q 0 end in
+  sigs r = [a_from_i8 (cci_rule zone (vals r 0) last)].
+Proof.
+  intros Hi. cbv zeta.
+  assert (I0 : cci_latch_inv s0 /\ ci_last s0 = f0 /\ ci_zone s0 = zone).
+  { unfold ccii_init in Hi. destruct (fge zone f0 && (1 <? period) && (period <? pmax)) eqn:E; [|discriminate]. cbn [negb] in Hi.
+    destruct (cci_new period _); cbn [obind] in Hi; try discriminate. injection Hi as <-.
+    apply andb_prop in E. destruct E as (E & _). apply andb_prop in E. destruct E as (E & _).
+    unfold fge in E. revert E. rsimp. intros E. destruct (Rleb_spec 0 zone); [|discriminate].
+    unfold cci_latch_inv. cbn. repeat split; try (intros; lia); auto. }
+  assert (I : forall p, cci_latch_inv (steps ccii_next s0 p) /\ ci_zone (steps ccii_next s0 p) = zone /\
+                       ci_last (steps ccii_next s0 p) = match rev (run ccii_next s0 p) with [] => f0 | q :: _ => vals q 0 end).
+  { induction p as [|a r IH] using rev_ind; [destruct I0 as (A & B & D); cbn; auto|].
+    destruct IH as (A & B & D). rewrite steps_snoc. pose proof (cci_step_rule (steps ccii_next s0 r) a A) as S. cbv zeta in S.
+    destruct S as (S1 & S2 & S3 & _). split; [exact S1|]. split; [congruence|]. rewrite S2, run_app, rev_app_distr. cbn [run].
+    destruct (ccii_next (steps ccii_next s0 r) a). reflexivity. }
+  destruct (I cs) as (A & B & D). pose proof (cci_step_rule (steps ccii_next s0 cs) c A) as S. cbv zeta in S.
+  destruct S as (_ & _ & _ & ->). rewrite B, D. reflexivity.
+Qed.
+End CCI.
